@@ -1495,7 +1495,8 @@ unit(name="SrcPwModes", props="property C01", file=PW, consts=PW_CONSTS, imports
 unit(name="SrcPwCustom", props="property C01", file=PW, consts=PW_CONSTS, imports=["RbV.Gen.SrcPwTypes"],
      abstract=[("matchFn", "Nat → Nat → Int")],
      cond_holes=[("iTie", r"i_score", r"s_score"), ("dTie", r"d_score", r"s_score"),
-                 ("snTie", r"self\.S\[\w+\]\[\w+\] \+ self\.scoring\.yclip_suffix", r"self\.Sn\[\w+\]")],
+                 ("snTie", r"self\.S\[curr\]\[\w+\] \+ self\.scoring\.yclip_suffix", r"self\.Sn\[\w+\]"),
+                 ("sn0Tie", r"self\.S\[k\]\[\w+\] \+ self\.scoring\.yclip_suffix", r"self\.Sn\[\w+\]")],
      abstract_calls={"self.scoring.match_fn.score": dict(lean="matchFn", params=["u8", "u8"], ret="i32")},
      functions=[dict(name="custom", lean="custom",
                      header="pub fn custom(&mut self, x: TextSlice<'_>, y: TextSlice<'_>) -> Alignment",
